@@ -48,7 +48,7 @@ HIST_OPS = ['apply'] * 4 + ['remove'] * 2 + ['slice', 'slice', 'clip', 'clip', '
                                            'ljust', 'rjust', 'center', 'zfill', 'assign', 'replace', 'replace', 'strip', 'rstrip', 'lstrip',
                                            'rmprefix', 'rmsuffix', 'case', 'expandtabs', 'split', 'rsplit', 'splitlines', 'partition',
                                            'rpartition', 'copy', 'copy', 'fmtmatch', 'unfmtmatch', 'conv', 'conv', 'index', 'simplify', 'clear',
-                                           'q_format', 'q_format', 'q_format', 'q_misc', 'setansi', 'applymatch', 'applymatch']
+                                           'q_format', 'q_format', 'q_format', 'q_misc', 'setansi', 'setansi', 'setansi', 'applymatch', 'applymatch']
 
 INPLACE_ONLY = ('apply', 'remove', 'simplify', 'clear', 'assign', 'fmtmatch', 'unfmtmatch', 'iadd', 'setansi', 'applymatch')
 
